@@ -68,7 +68,8 @@ def run(ctx):
         raise core.MachineryError("vacuous model: %s" % kinds)
     ctx.traces = n
     ctx.extra["remove_histories"] = kinds
-    from .. import tracedrv
+    from .. import tracedrv, repotrace
+    repotrace.repo_trace_check(ctx)
     tracedrv.trace_check(ctx, 150 if ctx.tier == "quick" else 1200, 6 if ctx.tier == "quick" else 8)
     ctx.rule = "every history ending in an enabled remove is one case (replayed via operations.remove_knot and via the object method)"
     ctx.assumptions = ["1e-8 relative tolerance", "removal of knots that are not exactly removable is unspecified (not an action of the model)"]
